@@ -151,6 +151,8 @@ pub fn plan_for(prop: &str, tier: Tier) -> Option<PropPlan> {
                 Plan { shape: Shape::Step, groups: G_LAYOUT | G_BACKEND | G_CONSTRAINT, random: None, spec: spec("C10", OPS_CAP, MON_CAP, l) },
                 Plan { shape: Shape::CapSpecial, groups: G_LAYOUT | G_BACKEND, random: None, spec: spec("C10", OPS_CAP, MON_CAP, if q { 14 } else { 16 }) },
                 Plan { shape: Shape::History, groups: G_LAYOUT | G_BACKEND, random: Some((hc, ho)), spec: spec("C10", OPS_CAP | ops(&[OP_PUSH, OP_INSERT, OP_POP, OP_REMOVE, OP_BULK_PUSH, OP_CLEAR]), MON_CAP, l) },
+                // every ordered pair of capacity calls / push / pop / clear from every small state
+                Plan { shape: Shape::Step2, groups: G_RAW, random: None, spec: spec("C10", OPS_CAP | ops(&[OP_POP, OP_CLEAR]), MON_CAP, 1) },
             ],
         }),
         "C11" => Some(PropPlan {
@@ -194,9 +196,10 @@ pub fn plan_for(prop: &str, tier: Tier) -> Option<PropPlan> {
         }),
         "C17" => Some(PropPlan {
             rule: "case = (state, 1..3 into_raw_parts/from_raw_parts round trips each optionally through a field-wise RawParts::clone, then one C01 operation); oracle: no registry/allocator event across the round trip, parts report len/capacity/layout/typeid/drop/clone/handle of the vector, cloned parts equal, rebuilt vector behaves as the Vec model; non-trivial = len>=1 with spare capacity, or parts cloned, or >=2 round trips; distinct = distinct (configuration, pick sequence)",
-            bound: format!("exhaustive for len<={} on Heap and Empty with every constraint set", l),
+            bound: format!("exhaustive for len<={} on Heap and Empty with every constraint set (with a capacity route before decomposing); proptest {} histories x <= {} ops interleaving round trips with all other operations", l, hc, ho),
             plans: vec![
-                Plan { shape: Shape::RawThen, groups: G_RAW, random: None, spec: spec("C17", OPS_C01, MON_MODEL | MON_OWN | MON_ALLOC, l.min(4)) },
+                Plan { shape: Shape::RawThen, groups: G_RAW, random: None, spec: spec("C17", OPS_C01, MON_MODEL | MON_OWN | MON_ALLOC, l.min(3)) },
+                Plan { shape: Shape::History, groups: G_RAW, random: Some((hc, ho)), spec: spec("C17", OPS_C01 | OPS_CAP | ops(&[OP_RAW_PARTS, OP_DRAIN, OP_CLONE, OP_CLONE_EMPTY, OP_BULK_PUSH]), MON_MODEL | MON_OWN | MON_ALLOC, l) },
             ],
         }),
         "C18" => Some(PropPlan {
@@ -205,6 +208,7 @@ pub fn plan_for(prop: &str, tier: Tier) -> Option<PropPlan> {
             plans: vec![
                 Plan { shape: Shape::Step, groups: G_LAYOUT | G_BACKEND | G_RAW, random: None, spec: spec("C18", OPS_C01 | OPS_CAP | ops(&[OP_CLONE, OP_CLONE_EMPTY, OP_SPLICE]), MON_ALLOC, l.min(4)) },
                 Plan { shape: Shape::CapSpecial, groups: G_LAYOUT | G_BACKEND, random: None, spec: spec("C18", OPS_CAP, MON_ALLOC, 8) },
+                Plan { shape: Shape::Step2, groups: G_RAW, random: None, spec: spec("C18", OPS_CAP | ops(&[OP_POP, OP_CLEAR]), MON_ALLOC, 1) },
                 Plan { shape: Shape::History, groups: G_LAYOUT | G_BACKEND, random: Some((hc, ho)), spec: spec("C18", OPS_C01 | OPS_C02 | OPS_CAP | ops(&[OP_CLONE, OP_CLONE_EMPTY, OP_BULK_PUSH, OP_DROP_NEW]), MON_ALLOC, l) },
             ],
         }),
